@@ -124,6 +124,8 @@ func C06(c *core.Ctx) {
 		{"portfolio", "weights", "-v", "CHF", "--universe", "universe.yaml", "--months", "--to", "2020-04-01", "--color=false"},
 		{"portfolio", "weights", "-v", "CHF", "--csv", "--to", "2020-04-01"},
 		{"portfolio", "returns", "-v", "CHF", "--months", "--to", "2020-04-01"},
+		{"register", "--color=false", "-d", "--to", "2020-04-01"},
+		{"register", "--color=false", "-a", "-c", "-v", "CHF", "--months", "--to", "2020-04-01"},
 	} {
 		fl := fl
 		add("example", "doc/example.knut "+strings.Join(fl, " "), func(dir string) []string { return append(append([]string{}, fl...), copyDoc(dir)) })
@@ -146,8 +148,10 @@ func C06(c *core.Ctx) {
 		dirs := append([]kj.Dir(nil), j.Dirs...)
 		rng.Shuffle(len(dirs), func(a, b int) { dirs[a], dirs[b] = dirs[b], dirs[a] })
 		lay := kj.SplitTree(rng, j, dirs, 2+rng.Intn(5))
-		cmds := [][]string{{"balance", "--color=false"}, {"balance", "--color=false", "--months", "--diff"}, {"print"}, {"check", "--write"}}
+		cmds := [][]string{{"balance", "--color=false"}, {"balance", "--color=false", "--months", "--diff"}, {"print"}, {"check", "--write"},
+			{"register", "--color=false", "-d"}, {"register", "--color=false", "-a", "--weeks"}}
 		if valued {
+			cmds = append(cmds, []string{"register", "--color=false", "-v", "CHF", "-a", "-d", "-m", "1,^Expenses"})
 			v := "CHF"
 			cmds = append(cmds, []string{"balance", "--color=false", "-v", v, "--weeks"}, []string{"transcode", "-v", v}, []string{"portfolio", "weights", "-v", v, "--csv"}, []string{"balance", "--color=false", "-v", v, "-m", "1:1,^Assets", "-m", "1,."})
 		}
